@@ -44,7 +44,7 @@
 using namespace nix;
 
 // ---------------------------------------------------------------- configurations
-enum Level { LF = 1, LA = 2, LS = 4, LM = 8, LR = 16 };   // full | alias-focused | small | many appends | reduced
+enum Level { LF = 1, LA = 2, LS = 4, LM = 8, LR = 16, LT = 32 };   // full | alias-focused | small | many appends | reduced | thorough tier only (with full)
 
 struct Cfg {
     std::string label;
@@ -71,13 +71,13 @@ static std::vector<Cfg> make_cfgs(bool thorough) {
         c.label = "rank " + std::to_string(ext.size()) + " " + tname(dt);
         C.push_back(c);
     };
-    add(DataType::Double, {3}, LF);
+    add(DataType::Double, {3}, thorough ? (LF | LT) : LF);
     add(DataType::Int32, {3}, LA);
     add(DataType::UInt8, {3}, LA);
     add(DataType::String, {3}, LS);
     add(DataType::Bool, {3}, LS);
     add(DataType::Double, {2, 3}, LM);
-    add(DataType::Int32, {2, 3}, thorough ? LM : LR);
+    add(DataType::Int32, {2, 3}, LR);
     add(DataType::Double, {2, 3, 4}, thorough ? LM : LR);
     add(DataType::Int32, {2, 3, 4}, LR);
     return C;
@@ -136,7 +136,7 @@ static std::string q(const std::string &s) { return "\"" + s + "\""; }
 static std::vector<Letter> catalogue() {
     std::vector<Letter> A;
     auto push = [&](Letter l, int levels, bool core) { l.levels = levels; l.core = core; A.push_back(l); };
-    const int ALL = LF | LA | LS | LM | LR;
+    const int ALL = LF | LA | LS | LM | LR | LT;
     // ---- appendSetDimension
     {
         static const char *nm[] = {"no labels", "1 label", "n labels", "n+1 labels"};
@@ -156,7 +156,7 @@ static std::vector<Letter> catalogue() {
             {1.0, "", "foo", 0.0, LF | LS | LM, false, "non-SI unit"},
             {0.1, "time", "", 2.5, LF | LM, true, "offset positive"},
             {0.1, "", "", -2.5, LF | LM | LR, true, "offset negative"},
-            {0.0, "time", "ms", 2.5, LF | LM, false, "interval 0 with label, unit and offset"}};
+            {0.0, "time", "ms", 2.5, LT | LM, false, "interval 0 with label, unit and offset"}};
         for (auto &x : s) {
             Letter l; l.op = APP_SMP; l.d1 = x.i; l.s1 = x.lab; l.s2 = x.unit; l.d2 = x.off; l.cls = x.cls;
             l.name = "appendSampledDimension(" + vf::hexd(x.i) + "," + q(x.lab) + "," + q(x.unit) + "," + vf::hexd(x.off) + ")";
@@ -171,8 +171,8 @@ static std::vector<Letter> catalogue() {
             {T_SORTED, "time", "s", LF | LM | LR, true, "sorted ticks, label and SI unit"},
             {T_SORTED, "", "foo", LF | LS | LM, false, "sorted ticks, non-SI unit"},
             {T_UNSORTED, "", "", ALL, true, "unsorted ticks"},
-            {T_UNSORTED, "time", "s", LF | LM, false, "unsorted ticks, label and SI unit"},
-            {T_DUPS, "", "s", LF | LM, true, "ticks with duplicates"},
+            {T_UNSORTED, "time", "s", LT | LM, false, "unsorted ticks, label and SI unit"},
+            {T_DUPS, "", "s", LF | LM, false, "ticks with duplicates"},
             {T_LEN1, "time", "", LF | LM, false, "one tick"},
             {T_EMPTY, "", "", LF | LS | LM, false, "empty tick vector"}};
         for (auto &x : s) {
@@ -185,15 +185,15 @@ static std::vector<Letter> catalogue() {
     // ---- appendDataFrameDimension
     {
         static const char *nm[] = {"no column", "column 0", "last column", "column index == number of columns", "column by name", "unknown column name", "uninitialised frame"};
-        const int lv[] = {LF | LM | LR, ALL, LF | LM, LF | LS | LM | LR, LF | LM, LF | LS | LM, LF | LM};
-        const bool co[] = {true, true, false, true, true, false, false};
+        const int lv[] = {LF | LM | LR, ALL, LF | LM, LF | LS | LM | LR, LF | LM, LF | LS | LM, LT | LM};
+        const bool co[] = {true, true, false, true, false, false, false};
         for (int k = 0; k < 7; k++) { Letter l; l.op = APP_DFR; l.dfm = k; l.name = std::string("appendDataFrameDimension(frame, ") + nm[k] + ")"; l.cls = nm[k]; push(l, lv[k], co[k]); }
     }
-    // ---- deprecated create*Dimension(id, ...): n = 0 -> id = count+1, n = 1 -> id = count+3 (would leave a gap if honoured)
-    { Letter l; l.op = DEP_SET; l.n = 1; l.name = "createSetDimension(id=count+3)"; l.cls = "id past the end"; push(l, LF | LM | LR, true); }
+    // ---- deprecated create*Dimension(id, ...): n = 0 -> id = count+1, n = 1 -> id = count+2 (would leave a gap if honoured; may be refused)
+    { Letter l; l.op = DEP_SET; l.n = 1; l.name = "createSetDimension(id=count+2)"; l.cls = "id past the end"; push(l, LF | LM | LR, true); }
     { Letter l; l.op = DEP_RNG; l.n = 0; l.tk = T_SORTED; l.name = "createRangeDimension(id=count+1, sorted ticks)"; l.cls = "sorted ticks"; push(l, LF | LM, false); }
-    { Letter l; l.op = DEP_RNG; l.n = 1; l.tk = T_UNSORTED; l.name = "createRangeDimension(id=count+3, unsorted ticks)"; l.cls = "unsorted ticks"; push(l, LF | LM | LR, false); }
-    { Letter l; l.op = DEP_SMP; l.n = 1; l.d1 = 0.5; l.name = "createSampledDimension(id=count+3, 0.5)"; l.cls = "id past the end"; push(l, LF | LM, true); }
+    { Letter l; l.op = DEP_RNG; l.n = 1; l.tk = T_UNSORTED; l.name = "createRangeDimension(id=count+2, unsorted ticks)"; l.cls = "unsorted ticks"; push(l, LF | LM | LR, false); }
+    { Letter l; l.op = DEP_SMP; l.n = 1; l.d1 = 0.5; l.name = "createSampledDimension(id=count+2, 0.5)"; l.cls = "id past the end"; push(l, LF | LM, false); }
     { Letter l; l.op = DEP_SMP; l.n = 0; l.d1 = -1.0; l.name = "createSampledDimension(id=count+1, -1)"; l.cls = "interval negative"; push(l, LF | LM | LR, false); }
     // ---- setters
     auto setter = [&](Op op, DK k, const std::string &fn, const std::string &arg, const std::string &cls, int lv, bool core) {
@@ -207,14 +207,14 @@ static std::vector<Letter> catalogue() {
         l = setter(S_LABEL, K_SMP, "label", "none", "label none", LF | LM, false); l.none = true; A.push_back(l);
         l = setter(S_UNIT, K_SMP, "unit", q("s"), "SI unit", LF | LM, true); l.s1 = "s"; A.push_back(l);
         l = setter(S_UNIT, K_SMP, "unit", q("foo"), "non-SI unit", LF | LS, false); l.s1 = "foo"; A.push_back(l);
-        l = setter(S_UNIT, K_SMP, "unit", q(""), "empty unit", LF, false); l.s1 = ""; A.push_back(l);
-        l = setter(S_UNIT, K_SMP, "unit", "none", "unit none", LF, true); l.none = true; A.push_back(l);
+        l = setter(S_UNIT, K_SMP, "unit", q(""), "empty unit", LT, false); l.s1 = ""; A.push_back(l);
+        l = setter(S_UNIT, K_SMP, "unit", "none", "unit none", LF, false); l.none = true; A.push_back(l);
         l = setter(S_INTERVAL, K_SMP, "samplingInterval", "2.5", "interval positive", LF | LM, true); l.d1 = 2.5; A.push_back(l);
         l = setter(S_INTERVAL, K_SMP, "samplingInterval", "0", "interval 0", LF | LS | LM, true); l.d1 = 0.0; A.push_back(l);
         l = setter(S_INTERVAL, K_SMP, "samplingInterval", "-0.5", "interval negative", LF | LR, false); l.d1 = -0.5; A.push_back(l);
         l = setter(S_OFFSET, K_SMP, "offset", "1.5", "offset positive", LF | LR, false); l.d1 = 1.5; A.push_back(l);
         l = setter(S_OFFSET, K_SMP, "offset", "-3.25", "offset negative", LF | LS | LM, true); l.d1 = -3.25; A.push_back(l);
-        l = setter(S_OFFSET, K_SMP, "offset", "0", "offset 0", LF, false); l.d1 = 0.0; A.push_back(l);
+        l = setter(S_OFFSET, K_SMP, "offset", "0", "offset 0", LT, false); l.d1 = 0.0; A.push_back(l);
         l = setter(S_OFFSET, K_SMP, "offset", "none", "offset none", LF, true); l.none = true; A.push_back(l);
         l = setter(S_INTERVAL, K_SMP, "samplingInterval", "4", "interval positive", LF, false); l.d1 = 4.0; l.last = true; l.name = "sampled (last).samplingInterval(4)"; A.push_back(l);
     }
@@ -222,14 +222,14 @@ static std::vector<Letter> catalogue() {
         Letter l;
         l = setter(S_LABEL, K_RNG, "label", q("x"), "label", LF | LA | LR, true); l.s1 = "x"; A.push_back(l);
         l = setter(S_LABEL, K_RNG, "label", q(""), "empty label", LF | LA | LS, false); l.s1 = ""; A.push_back(l);
-        l = setter(S_LABEL, K_RNG, "label", "none", "label none", LF | LA | LM, true); l.none = true; A.push_back(l);
+        l = setter(S_LABEL, K_RNG, "label", "none", "label none", LF | LA | LM, false); l.none = true; A.push_back(l);
         l = setter(S_UNIT, K_RNG, "unit", q("mV"), "SI unit", LF | LA | LS | LM, true); l.s1 = "mV"; A.push_back(l);
         l = setter(S_UNIT, K_RNG, "unit", q("foo"), "non-SI unit", LF | LA, false); l.s1 = "foo"; A.push_back(l);
         l = setter(S_UNIT, K_RNG, "unit", "none", "unit none", LF | LA, true); l.none = true; A.push_back(l);
         l = setter(S_TICKS, K_RNG, "ticks", TKN[T_SORTED], "sorted ticks", LF | LA | LM, true); l.tk = T_SORTED; A.push_back(l);
         l = setter(S_TICKS, K_RNG, "ticks", TKN[T_UNSORTED], "unsorted ticks", LF | LA | LS | LM | LR, true); l.tk = T_UNSORTED; A.push_back(l);
         l = setter(S_TICKS, K_RNG, "ticks", TKN[T_DUPS], "ticks with duplicates", LF | LA, false); l.tk = T_DUPS; A.push_back(l);
-        l = setter(S_TICKS, K_RNG, "ticks", TKN[T_LEN1], "one tick", LF | LA, false); l.tk = T_LEN1; A.push_back(l);
+        l = setter(S_TICKS, K_RNG, "ticks", TKN[T_LEN1], "one tick", LT | LA, false); l.tk = T_LEN1; A.push_back(l);
         l = setter(S_TICKS, K_RNG, "ticks", TKN[T_EMPTY], "empty tick vector", LF | LA, false); l.tk = T_EMPTY; A.push_back(l);
         l = setter(S_TICKS, K_RNG, "ticks", TKN[T_LEN1], "one tick", LF | LA, false); l.tk = T_LEN1; l.last = true; l.name = "range (last).ticks(one tick)"; A.push_back(l);
     }
@@ -239,7 +239,7 @@ static std::vector<Letter> catalogue() {
         l = setter(S_LABEL, K_SET, "label", q(""), "empty label", LF | LS, false); l.s1 = ""; A.push_back(l);
         l = setter(S_LABEL, K_SET, "label", "none", "label none", LF, false); l.none = true; A.push_back(l);
         l = setter(S_LABELS, K_SET, "labels", "[\"x\",\"y\"]", "two labels", LF | LS | LM | LR, true); l.n = 4; A.push_back(l);
-        l = setter(S_LABELS, K_SET, "labels", "[]", "empty label vector", LF, false); l.n = 5; A.push_back(l);
+        l = setter(S_LABELS, K_SET, "labels", "[]", "empty label vector", LT, false); l.n = 5; A.push_back(l);
         l = setter(S_LABELS, K_SET, "labels", "none", "labels none", LF | LM, true); l.none = true; A.push_back(l);
         l = setter(S_LABEL, K_SET, "label", q("second"), "label", LF, false); l.s1 = "second"; l.last = true; l.name = "set (last).label(\"second\")"; A.push_back(l);
     }
@@ -252,7 +252,7 @@ static std::vector<Letter> catalogue() {
     { Letter l; l.op = A_SETDATA; l.tk = T_SORTED; l.name = "array.setData(4 sorted values)"; l.cls = "sorted data"; push(l, LF | LA, true); }
     { Letter l; l.op = A_SETDATA; l.tk = T_UNSORTED; l.name = "array.setData(2 unsorted values)"; l.cls = "unsorted data"; push(l, LF | LA, true); }
     { Letter l; l.op = A_EXTENT; l.n = 2; l.name = "array.dataExtent({2})"; l.cls = "shrink"; push(l, LF | LA, true); }
-    { Letter l; l.op = A_EXTENT; l.n = 5; l.name = "array.dataExtent({5})"; l.cls = "grow"; push(l, LF | LA, false); }
+    { Letter l; l.op = A_EXTENT; l.n = 5; l.name = "array.dataExtent({5})"; l.cls = "grow"; push(l, LT | LA, false); }
     { Letter l; l.op = A_APPEND; l.name = "array.appendData(2 values)"; l.cls = "append"; push(l, LF | LA, true); }
     { Letter l; l.op = DEL_DIMS; l.name = "deleteDimensions()"; l.cls = "-"; push(l, ALL, true); }
     { Letter l; l.op = REOPEN; l.name = "REOPEN"; l.cls = "-"; push(l, ALL, true); }
@@ -316,16 +316,18 @@ struct Model {
 
     Cl classify(const Letter &l) const {
         switch (l.op) {
-        case APP_SET: case DEP_SET: return C_ACCEPT;
+        // the deprecated create*Dimension(id) with an id past the end: appended at count+1 or refused, never a gap
+        case APP_SET: return C_ACCEPT;
+        case DEP_SET: return l.n == 1 ? C_EITHER : C_ACCEPT;
         case APP_SMP: case DEP_SMP:
             if (l.d1 <= 0.0) return C_ILLEGAL;
             if (!l.s2.empty() && !is_si(l.s2)) return C_EITHER;
-            return C_ACCEPT;
+            return (l.op == DEP_SMP && l.n == 1) ? C_EITHER : C_ACCEPT;
         case APP_RNG: case DEP_RNG:
             if (l.tk == T_UNSORTED) return C_ILLEGAL;
             if (l.tk == T_EMPTY) return C_EITHER;
             if (!l.s2.empty() && !is_si(l.s2)) return C_EITHER;
-            return C_ACCEPT;
+            return (l.op == DEP_RNG && l.n == 1) ? C_EITHER : C_ACCEPT;
         case APP_ALIAS: return (c->track && dims.empty() && (aunit.empty() || is_si(aunit))) ? C_ACCEPT : C_REJECT;
         case APP_DFR: return (l.dfm == DF_LAST1 || l.dfm == DF_UNKNOWN || l.dfm == DF_UNINIT) ? C_REJECT : C_ACCEPT;
         case S_LABEL: if (target(l) < 0) return C_OFF; return l.none ? C_ACCEPT : l.s1.empty() ? C_EITHER : C_ACCEPT;
@@ -508,7 +510,7 @@ static void obs_dim(Obs &o, int pos, const H &h, const std::string &kc, bool sha
         std::vector<double> tv; bool have = false;
         put(o, p + "ticks", kc + " ticks", [&] { tv = s.ticks(); have = true; return vf::jvecd(tv); });
         if (have && !tv.empty()) put(o, p + "ticks(0,n)", kc + " ticks(start,count)", [&] { return vf::jvecd(s.ticks(0, tv.size())); });
-        if (!al) o.push_back(Entry{p + "ticks ascending", (!have || std::is_sorted(tv.begin(), tv.end())) ? "yes" : "no", "range ticks ascending in every state"});
+        o.push_back(Entry{p + "ticks ascending", (!have || std::is_sorted(tv.begin(), tv.end())) ? "yes" : "no", "range ticks ascending in every state"});
         break;
     }
     case DimensionType::DataFrame: {
@@ -562,7 +564,8 @@ static Obs expected(const Model &m, const std::string &frame_ref, bool with_data
             o.push_back(Entry{p + "unit", d.alias ? m.aunit : d.unit, kc + " unit"});
             o.push_back(Entry{p + "ticks", vf::jvecd(tv), kc + " ticks"});
             if (!tv.empty()) o.push_back(Entry{p + "ticks(0,n)", vf::jvecd(tv), kc + " ticks(start,count)"});
-            if (!d.alias) o.push_back(Entry{p + "ticks ascending", "yes", "range ticks ascending in every state"});
+            // an alias shows the array's data: unsorted values written through the ARRAY are outside the clause (the mirror wins)
+            o.push_back(Entry{p + "ticks ascending", (!d.alias || std::is_sorted(tv.begin(), tv.end())) ? "yes" : "no", "range ticks ascending in every state"});
             break;
         }
         case K_DFR:
@@ -662,7 +665,7 @@ struct Runner {
         for (auto &k : keys) {
             const bool inv = k.first.find("ascending") != std::string::npos || k.first.find("interval>0") != std::string::npos;
             if (invariants_only && !inv) continue;
-            const std::string want = inv ? "yes" : em.count(k.first) ? em[k.first].first : "<absent>";
+            const std::string want = em.count(k.first) ? em[k.first].first : inv ? "yes" : "<absent>";
             std::vector<std::string> bad, badval;
             size_t readers = 0;
             for (auto &p : paths) {
@@ -711,7 +714,7 @@ struct Runner {
         std::vector<H> kept;
         bool extend = true, fresh_session = true;
         std::string op = "create", icls = "-";
-        bool inv_only = false, threw = false;
+        bool inv_only = false, threw = false, skip_compare = false;
         Obs after_reject;
 
         for (size_t si = 0; si < steps.size() && extend; si++) {
@@ -734,7 +737,7 @@ struct Runner {
                 DataArray a = via_kept ? da : b.getDataArray("arr");
                 H h;
                 if (t >= 0) h = via_kept ? kept[(size_t)t] : typed(a.getDimension((ndsize_t)t + 1), false);
-                const ndsize_t id = (ndsize_t)m.dims.size() + (l.n == 1 ? 3 : 1);
+                const ndsize_t id = (ndsize_t)m.dims.size() + (l.n == 1 ? 2 : 1);
                 switch (l.op) {
                 case APP_SET: { auto lab = m.set_labels(l); SetDimension d = l.n == 0 ? a.appendSetDimension() : a.appendSetDimension(lab); newh.set = d; newh.d = d; appended = true; break; }
                 case DEP_SET: { SetDimension d = a.createSetDimension(id); newh.set = d; newh.d = d; appended = true; break; }
@@ -825,6 +828,7 @@ struct Runner {
                         }
                         viol("C13|" + op + "|" + icls + "|a call that throws changes nothing|" + cls + " changed",
                              C.label + ": " + trace + " threw " + exc + " (" + what + ") but " + k + " is now " + g + " (before: " + w + ")");
+                        skip_compare = true;     // one defect, one report
                     }
                 }
             } else {
@@ -879,7 +883,7 @@ struct Runner {
                 if (!exc.empty() || !da) { viol("C13|File::open(ReadOnly)|after " + op + "|file reopens|" + (exc.empty() ? "array none" : exc), C.label + ": " + trace + ": " + what); ok = false; }
                 else paths.push_back(Path{"reopened ReadOnly", observe(da, m, nullptr, false, true), false});
             }
-            if (!compare(paths, E, op, icls, inv_only)) ok = false;
+            if (!skip_compare && !compare(paths, E, op, icls, inv_only)) ok = false;
             cnt("getter_calls", g_getters - g0);
             dst("states", m.state_key(fresh_session));
         }
@@ -897,6 +901,8 @@ int main(int argc, char **argv) {
     const int depth_all = atoi(vf::opt.extra.count("depth") ? vf::opt.extra["depth"].c_str() : "3");
     const int depth_core = atoi(vf::opt.extra.count("depth-core") ? vf::opt.extra["depth-core"].c_str() : (thorough ? "4" : "3"));
 
+    // --dry=1: only count the sequences the model predicts (sizing of the bounds; nothing is executed or checked)
+    const bool dry = vf::opt.extra.count("dry") && vf::opt.extra["dry"] == "1";
     long caseno = 0, sampled = 0;
     for (size_t ci = 0; ci < cfgs.size(); ci++) {
         const Cfg &C = cfgs[ci];
@@ -920,7 +926,9 @@ int main(int argc, char **argv) {
         const bool split = dmax >= 4 || alpha.size() >= 40;      // big trees: one case per pair of leading steps
         for (size_t first = 0; first < alpha.size(); first++) {
             std::vector<long> seconds = {-1};
-            if (split && m0.classify(alpha[first]) == C_ACCEPT) for (size_t k = 0; k < alpha.size(); k++) seconds.push_back((long)k);
+            const Cl c0 = m0.classify(alpha[first]);
+            const bool may_extend = c0 == C_ACCEPT || c0 == C_EITHER;      // (whether an 'either' step extends is decided by running it)
+            if (split && may_extend) for (size_t k = 0; k < alpha.size(); k++) seconds.push_back((long)k);
             for (long second : seconds) {
                 long cid = caseno++;
                 if (!vf::take_case(cid)) continue;
@@ -938,8 +946,12 @@ int main(int argc, char **argv) {
                 std::function<void()> rec = [&]() {
                     if (vf::deadline_hit()) return;
                     mark("running");
-                    bool ext = R.run(seq, true);
-                    vf::count("traces");
+                    bool ext;
+                    if (dry) { Model m(C); for (size_t i = 0; i + 1 < seq.size(); i++) m.apply(seq[i]); ext = m.classify(seq.back()) == C_ACCEPT; vf::count("dry_traces"); vf::count("dry_traces[" + C.label + "]"); if (!ext || (int)seq.size() >= dmax) return; }
+                    else {
+                    ext = R.run(seq, true);
+                    vf::count("traces"); vf::count("traces[" + C.label + "]");
+                    }
                     if (ext) vf::count("transitions");
                     if (!ext || (int)seq.size() >= dmax) return;
                     for (const Letter &s : alpha) {
@@ -949,19 +961,20 @@ int main(int argc, char **argv) {
                         seq.pop_back();
                     }
                 };
-                if (m0.classify(alpha[first]) == C_OFF) continue;
-                if (!split || m0.classify(alpha[first]) != C_ACCEPT) { if (second < 0) rec(); }
-                else if (second < 0) { mark("running"); if (R.run(seq, true)) vf::count("transitions"); vf::count("traces"); }
+                if (c0 == C_OFF) continue;
+                if (!split || !may_extend) { if (second < 0) rec(); }
+                else if (second < 0 && dry) vf::count("dry_traces");
+                else if (second < 0) { mark("running"); if (R.run(seq, true)) vf::count("transitions"); vf::count("traces"); vf::count("traces[" + C.label + "]"); }
                 else {
                     const Letter &s2 = alpha[(size_t)second];
                     if (s2.op == REOPEN && alpha[first].op == REOPEN) continue;
                     mark("re-checking the leading step quietly");
-                    if (!R.run(seq, true, true)) continue;
+                    if (dry ? c0 != C_ACCEPT : !R.run(seq, true, true)) continue;
                     seq.push_back(s2);
                     if (allowed(seq) && enabled_last(seq)) rec();
                     seq.pop_back();
                 }
-                if (sampled < 6 && alpha[first].op == APP_ALIAS && second < 0 && C.track) {
+                if (!dry && sampled < 6 && alpha[first].op == APP_ALIAS && C.track && (split ? (second >= 0 && alpha[(size_t)second].op == S_TICKS && alpha[(size_t)second].tk == T_SORTED) : true)) {
                     sampled++;
                     vf::sample("{\"config\":" + vf::jstr(C.label) + ",\"last_trace_of_case\":" + vf::jstr(R.trace) + "}", 6);
                 }
